@@ -38,15 +38,17 @@ impl GroupB {
             ("C05", Tier::Quick) => 12000,
             ("C05", Tier::Thorough) => 120000,
             ("C06", Tier::Quick) => 20000,
-            ("C06", Tier::Thorough) => 150000,
+            ("C06", Tier::Thorough) => 450000,
             ("C17", Tier::Quick) => 15000,
-            ("C17", Tier::Thorough) => 100000,
+            ("C17", Tier::Thorough) => 300000,
             (_, Tier::Quick) => 12000,
-            (_, Tier::Thorough) => 120000,
+            (_, Tier::Thorough) => 360000,
         };
         GroupB {
             id,
-            stream: ExprStream::new(tier, seed, 10),
+            // C05 runs every case in a guarded subprocess-attributed way and is the slowest monitor: its
+            // thorough stream keeps the size it had before the thorough tier was enlarged.
+            stream: ExprStream::new(tier, seed, if id == "C05" && tier == Tier::Thorough { 2 } else { 10 }),
             bombs: if id == "C05" { gexpr::bombs() } else { Vec::new() },
             extra,
         }
